@@ -23,7 +23,7 @@ fn rec(metric: DistanceMetric, d: f32) -> i64 {
     };
     // exact-integer metrics must be integers up to f32 rounding of the square root
     if metric != DistanceMetric::Cosine && (x - x.round()).abs() > 1e-3 * (1.0 + x.abs()) { return -888_888; }
-    x.round() as i64
+    (x.round() as i64).clamp(-2_000_000_000, 2_000_000_000)
 }
 fn res_json(metric: DistanceMetric, r: &[(NodeId, f32)]) -> J { json!(r.iter().map(|(id, d)| json!([id.as_u64(), rec(metric, *d)])).collect::<Vec<_>>()) }
 
